@@ -29,12 +29,14 @@ type FuncInfo struct {
 	Lits    []*ast.FuncLit // literals inside (source order), for Decl only
 	Parent  *FuncInfo
 	Ordinal int
+	OnceArg bool // the literal is the callback of a sync.Once.Do call: executed inline in its parent, only there
 }
 
 type World struct {
 	Fset        *token.FileSet
 	Pkgs        map[string]*packages.Package
 	declKeys    map[string]map[string]bool
+	onces       map[string]string
 	Funcs       map[string]*FuncInfo // by key
 	ByObj       map[*types.Func]*FuncInfo
 	ByLit       map[*ast.FuncLit]*FuncInfo
@@ -140,6 +142,21 @@ func (w *World) indexPackage(p *packages.Package) {
 			if obj != nil {
 				w.ByObj[obj] = fi
 			}
+			onceLits := map[*ast.FuncLit]bool{}
+			ast.Inspect(fd.Body, func(x ast.Node) bool {
+				call, ok := x.(*ast.CallExpr)
+				if !ok || len(call.Args) != 1 {
+					return true
+				}
+				lit, isLit := call.Args[0].(*ast.FuncLit)
+				sel, isSel := call.Fun.(*ast.SelectorExpr)
+				if isLit && isSel && sel.Sel.Name == "Do" {
+					if f, ok := p.TypesInfo.Uses[sel.Sel].(*types.Func); ok && f.Pkg() != nil && f.Pkg().Path() == "sync" {
+						onceLits[lit] = true
+					}
+				}
+				return true
+			})
 			// literals in source order, with hierarchical names $1, $1$1 ...
 			var walk func(n ast.Node, parent *FuncInfo)
 			walk = func(n ast.Node, parent *FuncInfo) {
@@ -150,7 +167,7 @@ func (w *World) indexPackage(p *packages.Package) {
 					}
 					if lit, ok := x.(*ast.FuncLit); ok {
 						k++
-						li := &FuncInfo{Key: fmt.Sprintf("%s$%d", parent.Key, k), Name: fmt.Sprintf("%s$%d", parent.Name, k), Pkg: p, Decl: fd, Lit: lit, Body: lit.Body, Type: lit.Type, Parent: parent, Ordinal: k}
+						li := &FuncInfo{Key: fmt.Sprintf("%s$%d", parent.Key, k), Name: fmt.Sprintf("%s$%d", parent.Name, k), Pkg: p, Decl: fd, Lit: lit, Body: lit.Body, Type: lit.Type, Parent: parent, Ordinal: k, OnceArg: onceLits[lit]}
 						w.Funcs[li.Key] = li
 						w.ByLit[lit] = li
 						parent.Lits = append(parent.Lits, lit)
@@ -248,6 +265,17 @@ func (w *World) loadSpecFile(path, pkgPath string, goFile bool) error {
 		w.Ghosts[g.Type+"."+g.Name] = g
 	}
 	for _, t := range sf.Types {
+		if old, dup := w.TypeSpec[t.PkgPath+"|"+t.Name]; dup {
+			// merge: a later block adds fields; the same field twice is an error
+			for f, cls := range t.Fields {
+				if _, twice := old.Fields[f]; twice {
+					return fmt.Errorf("%s: field %s of type %s is classified twice", path, f, t.Name)
+				}
+				old.Fields[f] = cls
+			}
+			old.Invariants = append(old.Invariants, t.Invariants...)
+			continue
+		}
 		w.TypeSpec[t.PkgPath+"|"+t.Name] = t
 	}
 	w.Axioms = append(w.Axioms, sf.Axioms...)
@@ -405,6 +433,28 @@ func (w *World) guardOf(key string) string {
 		}
 	}
 	return w.guards[key]
+}
+
+// closedOnceBy: for a channel field declared `closed_once_by f`, the heap key of the sync.Once field f of the same object.
+func (w *World) closedOnceBy(key string) string {
+	if w.onces == nil {
+		w.onces = map[string]string{}
+		for _, ts := range w.TypeSpec {
+			pkg := w.Pkgs[ts.PkgPath]
+			if pkg == nil {
+				continue
+			}
+			for f, cls := range ts.Fields {
+				fs := strings.Fields(cls)
+				for i, x := range fs {
+					if x == "closed_once_by" && i+1 < len(fs) {
+						w.onces["F:"+sanitize(pkg.Name+"."+ts.Name)+"."+f] = "F:" + sanitize(pkg.Name+"."+ts.Name) + "." + fs[i+1]
+					}
+				}
+			}
+		}
+	}
+	return w.onces[key]
 }
 
 // atomicClass: "" (none), "atomic" (sync/atomic access only), "atomic rmw" (additionally: never written by a
